@@ -6,6 +6,7 @@ import SonicModel.Lemmas.SpecBound
 import SonicModel.Lemmas.BlockProof
 import SonicModel.Lemmas.ScanGrammar
 import SonicModel.Lemmas.StrSkipGrammar
+import SonicModel.Lemmas.GetURefine
 namespace Sonic.Thm.C10
 open Sonic Gen Impl Spec
 
@@ -163,5 +164,57 @@ theorem unchecked_string_skip_finds_the_closing_quote (buf : Buf) (f i e : Nat) 
 example : Spec.skipStringScalar [97, 92, 34, 98, 92, 92, 34, 32, 34] = some (7, true) := by decide
 example : Spec.skipStringScalar [97, 98, 34, 92] = some (3, false) := by decide
 example : Spec.skipStringScalar [97, 92, 34] = none := by decide
+
+/-! ### the unchecked lookups (`get_unchecked`, `LazyValue::get` / `pointer`) -/
+
+/-- **`get_next_token` (32 bytes at a time, then byte by byte) is the scalar search** for the first byte that is one of
+    the tokens, for every text, token set and `advance` -/
+theorem next_token_is_scalar_search (toks : List UInt8) (adv : Nat) (data : List UInt8) (pos : Nat) :
+    GetU.nextTokenBlk toks adv (data.length / 32 + 1) data pos = GetU.tailTok toks adv data pos :=
+  GetU.nextTokenBlk_eq_tail toks adv _ data pos (by omega)
+
+/-- **unchecked `get` == specification lookup**: the model of `get_from_with_iter_unchecked` — members and elements passed
+    over with the bit-parallel container skipper, the block string skipper or (numbers, literals) not at all, the next member /
+    element found by `get_next_token`, keys decoded and compared like the checked walker, the value found skipped with the
+    checked `skip_one` — returns, for every buffer, start index and path, exactly the span the specification finds, and fails
+    when the path does not resolve (absent key / index, step of the wrong kind, empty container), **whenever everything the
+    lookup has to pass over is well-formed** (`look` is not `malformed`; nothing is assumed about the bytes after the value) -/
+theorem unchecked_get_eq_lookup (buf : Buf) (path : List Step) (i : Nat) :
+    match look buf (skipWs buf i) path with
+    | .found s e => GetU.getUnchecked buf i path = .found s e
+    | .missing => ∃ c p, GetU.getUnchecked buf i path = .err c p
+    | .wrongKind => ∃ c p, GetU.getUnchecked buf i path = .err c p
+    | .malformed => True :=
+  GetU.getUnchecked_spec buf path i
+
+/-- **the unchecked variant gives the same answer as the checked one**: whatever the checked `get` finds, the unchecked `get`
+    finds — the same span —, and where the checked `get` reports "not found" the unchecked one fails too -/
+theorem unchecked_get_agrees_with_checked (buf : Buf) (path : List Step) (i : Nat) :
+    (∀ s e, getChecked buf.size buf i path = .found s e → GetU.getUnchecked buf i path = .found s e) ∧
+    (∀ c p, getChecked buf.size buf i path = .err c p → c.category = .NotFound → ∃ c' p', GetU.getUnchecked buf i path = .err c' p') := by
+  have hc := getChecked_coarse buf path i
+  have hu := GetU.getUnchecked_spec buf path i
+  constructor
+  · intro s e hg
+    rw [hg] at hc
+    cases hl : look buf (skipWs buf i) path with
+    | found s' e' =>
+      rw [hl] at hc hu
+      simp only [GRes.coarse, Look.coarse, Coarse.found.injEq] at hc
+      rw [hc.1, hc.2]; exact hu
+    | missing => rw [hl] at hc; simp [GRes.coarse, Look.coarse] at hc
+    | wrongKind => rw [hl] at hc; simp [GRes.coarse, Look.coarse] at hc
+    | malformed => rw [hl] at hc; simp [GRes.coarse, Look.coarse] at hc
+  · intro c p hg hcat
+    rw [hg] at hc
+    cases hl : look buf (skipWs buf i) path with
+    | found s' e' => rw [hl] at hc; simp [GRes.coarse, Look.coarse, hcat] at hc
+    | missing => rw [hl] at hu; exact hu
+    | wrongKind => rw [hl] at hc; simp [GRes.coarse, Look.coarse, hcat] at hc
+    | malformed => rw [hl] at hc; simp [GRes.coarse, Look.coarse, hcat] at hc
+
+/-- non-vacuity: the example document, with a string full of brackets and an escaped quote to pass over -/
+def ex2 : Buf := #[123, 34, 115, 34, 58, 34, 125, 92, 34, 93, 34, 44, 34, 97, 34, 58, 91, 49, 44, 123, 34, 98, 34, 58, 34, 120, 34, 125, 93, 125]
+example : lookup ex2 [.key [97], .idx 1, .key [98]] = .found 24 27 := by decide +kernel
 
 end Sonic.Thm.C10
